@@ -16,6 +16,7 @@ import CalmVerif.Spec.LinesRef
 import CalmVerif.Proofs.LexerTerm
 import CalmVerif.Proofs.LexerTables
 import CalmVerif.Proofs.LexerPos
+import CalmVerif.Proofs.LexerKeyword
 
 namespace CalmVerif.Props.C06
 open CalmVerif.Model.TokenRegex CalmVerif.Model.PlyLex CalmVerif.Model.Lexer
@@ -128,29 +129,48 @@ theorem punctuator_maximal_munch (text : List Char) (wc yc : Bool) (toks : List 
 theorem all_punctuators_are_initial_rules :
     LexData.punctSpelling.all (fun p => (rulesOf .initial).contains p.1) = true := by decide
 
-/-- T `id_keyword_iff`: in a stand-alone lexing, a token of the identifier class (typed `ID` or with a keyword type)
-    is typed as keyword `K` iff its WHOLE text equals the spelling of `K` in `Lexer.keywords_dict`. -/
+/-- the look-behind flag of `t_ID` in terms of the token stream: among the tokens `prev` returned before (in order),
+    the last one that is neither inserted nor a comment / line terminator (the lexer's `cur_token_real`) is a `.` -/
+abbrev afterPeriodOf (prev : List Token) : Bool := LexerKeyword.afterPeriodOf prev
+
+/-- T `id_keyword_iff`: in a stand-alone lexing, a token `t` of the identifier class (typed `ID` or with a keyword
+    type) is typed as keyword `K` iff its WHOLE text equals the spelling of `K` in `Lexer.keywords_dict` AND the
+    previous significant token is not `.` (an IdentifierName after `.` is a property name: `t_ID` types it `ID`). -/
 theorem id_keyword_iff (text : List Char) (wc yc : Bool) (toks : List Token) (e : Option Err)
-    (h : lexStandalone text wc yc = (toks, e)) (t : Token) (ht : t ∈ toks) (hreal : t.auto = false)
+    (h : lexStandalone text wc yc = (toks, e)) (pre post : List Token) (t : Token)
+    (hsplit : toks = pre ++ t :: post) (hreal : t.auto = false)
     (hcls : t.type = "ID" ∨ t.type ∈ LexData.keywords.map (·.2))
     (sp K : String) (hK : (sp, K) ∈ LexData.keywords) :
-    t.type = K ↔ String.ofList t.value = sp := by
+    t.type = K ↔ (String.ofList t.value = sp ∧ afterPeriodOf pre = false) := by
+  unfold lexStandalone at h
+  obtain ⟨new, hnew, hall⟩ := LexerKeyword.lexAll_kw text _ _ [] toks e rfl rfl (by simp [LexerKeyword.afterPeriodOf, init, afterPeriod]) h
+  simp at hnew
+  subst hnew
+  subst hsplit
+  have htb := LexerKeyword.kwAll_split text pre [] t post hall
+  simp only [List.nil_append] at htb
+  have hty := LexerKeyword.typedBy_id htb hreal (by simp only [List.mem_cons]; exact hcls)
+  rw [hty]
+  exact LexerTables.ruleFn_keyword_iff _ t.value sp K hK
+
+/-- T `keyword_exact` ("an identifier is classified as a keyword ONLY ON EXACT MATCH"): a token with a keyword type
+    has exactly that keyword's spelling (never a prefix or a longer identifier) -/
+theorem keyword_exact (text : List Char) (wc yc : Bool) (toks : List Token) (e : Option Err)
+    (h : lexStandalone text wc yc = (toks, e)) (t : Token) (ht : t ∈ toks) (hreal : t.auto = false)
+    (sp K : String) (hK : (sp, K) ∈ LexData.keywords) (hty : t.type = K) :
+    String.ofList t.value = sp := by
   unfold lexStandalone at h
   obtain ⟨new, hnew, hall⟩ := LexerSegm.lexAll_tokens _ _ _ _ _ rfl h
   simp at hnew
   subst hnew
-  refine LexerTables.id_keyword_iff_aux ((hall t ht).1 hreal) ?_ sp K hK
-  simp only [List.mem_cons]
-  exact hcls
+  exact LexerTables.keyword_type_exact ((hall t ht).1 hreal) sp K hK hty
 
-/-- T `keyword_exact`: a token with a keyword type has exactly that keyword's spelling (never a prefix or a longer
-    identifier) -/
-theorem keyword_exact (text : List Char) (wc yc : Bool) (toks : List Token) (e : Option Err)
-    (h : lexStandalone text wc yc = (toks, e)) (t : Token) (ht : t ∈ toks) (hreal : t.auto = false)
-    (sp K : String) (hK : (sp, K) ∈ LexData.keywords) (hty : t.type = K) :
-    String.ofList t.value = sp :=
-  (id_keyword_iff text wc yc toks e h t ht hreal
-    (Or.inr (hty ▸ List.mem_map_of_mem (f := (·.2)) hK)) sp K hK).mp hty
+/-- regression / non-vacuity of the look-behind: `a.if` is ID, PERIOD, ID; `if` elsewhere is IF; a comment or line
+    terminator between `.` and the name does not matter -/
+example :
+    ((lexStandalone "a.if if a./*c*/\nreturn".toList false false).1.map (·.type)) =
+      ["ID", "PERIOD", "ID", "IF", "ID", "PERIOD", "ID"] := by
+  decide +kernel
 
 /-! ### positions -/
 
